@@ -2,6 +2,7 @@ import ScrapliProps.C01Lemmas
 import ScrapliProps.C01Interact
 import ScrapliProps.C01Platform
 import ScrapliProps.C01Driver
+import ScrapliProps.C01PlatformXR
 /-
   C01 — a command's response is exactly what the device printed for that command.
   Property theorems only (helper lemmas and the definitions `Quiet`, `NoEarly`, `PromptOK`,
@@ -529,6 +530,22 @@ theorem iosxe_session_exact (cfg : Cfg) (out : Bytes → Bytes) {p : Bytes} (hp 
       w'.writes = w.writes ++ (inputs.map (fun i => [i, cfg.ret])).flatten ∧
       (∀ x ∈ w'.avail, isHws x = true) ∧ w'.held = [] :=
   session_exact (iosxe_fits cfg out hp hS hstrict hret hwin) stripPrompt inputs hg w hw hheld
+
+/-- **the same for the IOS-XR class pattern** (`\s?` after the `#`: the device may or may not print one blank
+    after its prompt): every privilege-exec / configuration prompt the pattern admits, `blank` / `NoEarly` /
+    `PromptOK` proved (`iosxr_fits`), the line predicate `iosxrP` compared with CPython on every run -/
+theorem iosxr_session_exact (cfg : Cfg) (out : Bytes → Bytes) {p t : Bytes} (hp : XrPrompt p) (ht : t = [] ∨ t = [32])
+    (hS : ∀ x, cfg.prompt.search x = (splitNL x).any iosxrP)
+    (hstrict : cfg.rough = false) (hret : IsRet cfg.ret) (hwin : (p ++ t).length < cfg.depth)
+    (stripPrompt : Bool) (inputs : List Bytes)
+    (hg : ∀ i ∈ inputs, GoodCmd iosxrP { out := out, prompt := p, trail := t } i)
+    (w : Wire) (hw : ∀ x ∈ w.avail, isHws x = true) (hheld : w.held = []) :
+    ∃ rs w', runCmds cfg (LineDev.onWrite { out := out, prompt := p, trail := t }) stripPrompt inputs (w, []) =
+        some (rs, (w', [])) ∧
+      rs.map (·.2) = inputs.map (expected cfg { out := out, prompt := p, trail := t } stripPrompt) ∧
+      w'.writes = w.writes ++ (inputs.map (fun i => [i, cfg.ret])).flatten ∧
+      (∀ x ∈ w'.avail, isHws x = true) ∧ w'.held = [] :=
+  session_exact (iosxr_fits cfg out hp ht hS hstrict hret hwin) stripPrompt inputs hg w hw hheld
 
 /-- the defaults regenerated from the source lie inside the scope of the session theorems
     (return character `\n`, strict input matching, a positive search depth) -/
